@@ -269,6 +269,22 @@ pub fn sample_archives() -> Vec<(&'static str, Vec<u8>)> {
         ];
         v.push(("foreign", raw_archive(0, &cs)));
     }
+    {
+        // solid blocks that hold no entry (a SolidEntryBuilder nobody added to; what delete --keep-solid leaves of a block
+        // whose entries are all gone) in front of, between and behind other items, stored and compressed
+        let empty = |o: WriteOptions| SolidEntryBuilder::new(o).unwrap().build().unwrap();
+        let mut a = Archive::write_header(Vec::new()).unwrap();
+        a.add_entry(empty(WriteOptions::store())).unwrap();
+        a.add_entry(file_entry("behind-empty", b"one", WriteOptions::store(), false)).unwrap();
+        a.add_entry(empty(WriteOptions::builder().compression(Compression::ZStandard).build())).unwrap();
+        a.add_entry(empty(WriteOptions::store())).unwrap();
+        let mut sb = SolidEntryBuilder::new(WriteOptions::store()).unwrap();
+        sb.add_entry(file_entry("in-block", b"two", WriteOptions::store(), false)).unwrap();
+        a.add_entry(sb.build().unwrap()).unwrap();
+        a.add_entry(EntryBuilder::new_dir("last".into()).build().unwrap()).unwrap();
+        a.add_entry(empty(WriteOptions::store())).unwrap();
+        v.push(("emptysolid", a.finalize().unwrap()));
+    }
     v
 }
 
